@@ -363,6 +363,13 @@ func (w *wflow) step(in watIns, st *wstate, paramNames map[string]bool) {
 			a := st.pop()
 			st.push(&wterm{Op: "op", Name: name, Args: []*wterm{a}})
 		}
+	case op == "call_indirect":
+		// the callee's type is not in the source: the table index is popped and one opaque result is pushed; the
+		// arguments stay below it (rules look at the top of the stack only)
+		idx := st.pop()
+		st.events = append(st.events, wevent{Kind: "call", Name: "call_indirect", Args: []*wterm{idx}, Line: in.Line})
+		st.mem = nil
+		st.push(w.fresh("indirect"))
 	case op == "call":
 		callee := watNameArg(in)
 		f := w.mod.ByName[callee]
